@@ -34,7 +34,10 @@ def bfs_numpy(graph: CayleyGraph, max_diameter: int = 1000000) -> list[int]:
     layer1 = [perm_funcs[i](start_state) for i in range(pn)]
     layer1 = [np.setdiff1d(x, start_state, assume_unique=True) for x in layer1]
     _make_states_unique(layer1)
-    layer_sizes = [1, len(np.unique(np.hstack(layer1)))]
+    layer1_size = len(np.unique(np.hstack(layer1)))
+    if layer1_size == 0:
+        return [1]
+    layer_sizes = [1, layer1_size]
 
     for i in range(2, max_diameter + 1):
         layer2 = []
